@@ -16,7 +16,7 @@ from common import gal, g_str, Broken
 NAME = "alias"
 IMPORTS = "From Cinco Require Import Base Alias."
 RUN = "run_alias"
-CASE_TYPE = "(fld * list event)"
+CASE_TYPE = "(fld * list xevent)"
 
 
 # ---------------------------------------------------------------------------------------------
@@ -332,6 +332,44 @@ def gen_op(rng, spec, sh):
     return ("dset", path, rng.choice(KEYS), gen_value(rng, sp))
 
 
+READS = ["to_tree", "dumps", "asdict", "validate", "get_all_fields"]
+
+
+def scalar_item(f):
+    """fields whose assigned value the proxy constructor copies completely: typed list / dict of scalars, scalars"""
+    if f[0] == "any":
+        return f[2] in ("int", "str")
+    return f[0] in ("list", "dict") and f[1] is not None and f[1][0] == "any"
+
+
+def gen_cross(rng, spec, shadows, i):
+    """cfg_i<p>.k = cfg_j<p>.k for a field whose value is copied on assignment; None if there is none"""
+    others = [j for j in range(len(shadows)) if j != i]
+    if not others:
+        return None
+    j = rng.choice(others)
+    out = []
+    targets(shadows[i], spec, [], out)
+    cands = []
+    for path, kind, sp in out:
+        if kind == "cfg" and isinstance(sh_nav(shadows[j], path), CfgS):
+            for n, f in sp[2]:
+                if scalar_item(f):
+                    cands.append((path, n))
+    if not cands:
+        return None
+    path, n = rng.choice(cands)
+    return ("cross", i, j, path, n)
+
+
+def sh_cross(shadows, spec, e):
+    _, i, j, path, n = e
+    src = sh_nav(shadows[j], path)
+    dst = sh_nav(shadows[i], path)
+    if isinstance(src, CfgS) and isinstance(dst, CfgS) and n in src:
+        dst[n] = copy.deepcopy(src[n])
+
+
 # the witness shapes of DESIGN.md 1.1 F30 / probes/camp6.py, plus tuples (F47) and a reused item type
 def matrix_schema():
     it_s = ("sub", False, [("v", ("list", None, ("tree", [1]))), ("n", ("any", ("tree", 0), "int"))], "schema", 1)
@@ -387,6 +425,19 @@ def generate(rng, tier):
     for o in ops:
         cases.append({"schema": ms, "events": [("build",), ("build",), ("op", 0, o)], "kind": "matrix"})
         cases.append({"schema": ms, "events": [("build",), ("op", 0, o), ("build",), ("op", 0, o)], "kind": "matrix"})
+    # a value read from another configuration is assigned, then one side is mutated in place
+    sp_ = [("a", "sub")]
+    for (i, j) in ((1, 0), (0, 1)):
+        for n, app in (("l", ("append", sp_ + [("a", "l")], 9)), ("m", ("dset", sp_ + [("a", "m")], "z", 9))):
+            cases.append({"schema": ms, "kind": "matrix", "events": [
+                ("build",), ("build",), ("op", j, app), ("cross", i, j, sp_, n), ("op", i, app), ("op", j, app)]})
+    cases.append({"schema": ms, "kind": "matrix", "events": [
+        ("build",), ("build",), ("op", 0, ("set", [], "n", 8)), ("cross", 1, 0, [], "n"), ("op", 0, ("set", [], "n", 7))]})
+    # observers change nothing, also on a dynamic configuration that has extra fields
+    for rk in READS:
+        cases.append({"schema": ms, "kind": "matrix", "events": [
+            ("build",), ("build",), ("op", 0, ("set", [], "x1", [1, {"a": [2]}])), ("read", 0, rk), ("read", 1, rk),
+            ("op", 0, ("set", [("a", "cts"), ("i", 0)], "x2", 5)), ("read", 0, rk), ("build",)]})
     for kind in ("schema", "ct"):
         fs = f46_schema(kind)
         cases.append({"schema": fs, "events": [("build",), ("build",), ("op", 0, ("set", [("a", "items"), ("i", 0)], "n", 9))],
@@ -407,6 +458,16 @@ def generate(rng, tier):
                 shadows.append(default_shadow(spec))
                 continue
             i = 0 if rng.random() < 0.85 else rng.randrange(len(shadows))
+            r = rng.random()
+            if r < 0.12:
+                events.append(("read", rng.randrange(len(shadows)), rng.choice(READS)))
+                continue
+            if r < 0.24:
+                e = gen_cross(rng, spec, shadows, i)
+                if e is not None:
+                    sh_cross(shadows, spec, e)
+                    events.append(e)
+                    continue
             o = gen_op(rng, spec, shadows[i])
             sh_apply(shadows[i], spec, o)
             events.append(("op", i, o))
@@ -484,9 +545,15 @@ def gcase(c):
     evs = []
     for e in c["events"]:
         if e[0] == "build":
-            evs.append("EBuild")
+            evs.append("XE EBuild")
+        elif e[0] == "op":
+            evs.append("XE (EOp %d%%nat %s)" % (e[1], g_op(e[2])))
+        elif e[0] == "cross":
+            evs.append("XCross %d%%nat %d%%nat %s %s" % (e[1], e[2], g_path(e[3]), g_str(e[4])))
+        elif e[0] == "read":
+            evs.append("XRead")
         else:
-            evs.append("EOp %d%%nat %s" % (e[1], g_op(e[2])))
+            raise Broken("bad event %r" % (e,))
     return "(%s, [%s])" % (g_fld(c["schema"]), ";".join(evs))
 
 
@@ -719,6 +786,33 @@ def _apply(cfg, o):
         raise Broken("bad op %r" % (o,))
 
 
+def _read(cfg, schema, kind):
+    import cincoconfig as cc
+    if kind == "to_tree":
+        cfg.to_tree()
+    elif kind == "dumps":
+        cfg.dumps("json")
+    elif kind == "asdict":
+        cc.asdict(cfg)
+    elif kind == "validate":
+        cfg.validate()
+    elif kind == "get_all_fields":
+        cc.get_all_fields(schema)
+        cc.get_all_fields(cfg)
+    else:
+        raise Broken("bad observer %r" % (kind,))
+
+
+def _cross(cfgs, e):
+    from cincoconfig.core import Config
+    _, i, j, path, n = e
+    src = _nav(cfgs[j], path)
+    dst = _nav(cfgs[i], path)
+    if not isinstance(src, Config) or not isinstance(dst, Config) or n not in src._data:
+        raise LookupError("no such value")
+    setattr(dst, n, getattr(src, n))
+
+
 def impl(c):
     import cincoconfig as cc
     viol = []
@@ -750,15 +844,23 @@ def impl(c):
             target = len(cfgs) - 1
         else:
             target = e[1]
-            if target >= len(cfgs):
+            if target >= len(cfgs) or (e[0] == "cross" and e[2] >= len(cfgs)):
                 raise Broken("event addresses a configuration that does not exist")
             try:
-                _apply(cfgs[target], e[2])
+                if e[0] == "op":
+                    _apply(cfgs[target], e[2])
+                elif e[0] == "cross":
+                    _cross(cfgs, e)
+                else:
+                    _read(cfgs[target], schema, e[2])
                 stats["ok"] += 1
             except Broken:
                 raise
             except Exception:  # noqa
                 stats["err"] += 1
+            if e[0] == "read":
+                if _snap(cfgs[target]) != snaps[target]:
+                    viol.append("event %d (observer %s) changed the configuration it was called on" % (n, e[2]))
             snaps[target] = _snap(cfgs[target])
             dicts[target] = _plain(cc.asdict(cfgs[target]))
         # --- the property, evaluated directly ---
@@ -823,7 +925,12 @@ def tags(c, obs):
     t.add("configs:%d" % nb)
     seen_op = False
     for e in c["events"]:
-        if e[0] == "op":
+        if e[0] == "cross":
+            seen_op = True
+            t.add("op:cross-assign")
+        elif e[0] == "read":
+            t.add("read:" + e[2])
+        elif e[0] == "op":
             seen_op = True
             t.add("op:" + e[2][0])
             t.add("depth:%d" % min(len(e[2][1]), 4))
